@@ -168,7 +168,7 @@ def body(m, cfg):
     rec = {}
     realVB = D.VectorBasis
 
-    def VB(n, u=None, v=None):
+    def _vb_pre(n, u=None, v=None):
         """Cut point: record the angular-momentum vector handed to VectorBasis and (symbolic mode)
         continue with a fresh arbitrary non-zero vector l in its place.  The basis construction for
         an ARBITRARY normal is what the 'vector' configurations prove; here it is re-proved for l
@@ -182,19 +182,19 @@ def body(m, cfg):
                 n = Vector(*l, name=n.name)
             else:
                 rec["l"] = rec["L"]
-        return realVB(n=n, u=u, v=v)
+        return n, u, v
+    VB = _hook_class(realVB, _vb_pre)
 
     from symx import core as _core
     Vm = install.mod("osyris.core.vector")
     realVB2 = Vm.VectorBasis
     rolled = {}
 
-    def VB2(n, u=None, v=None):
-        r = realVB2(n=n, u=u, v=v)
+    def _vb2_post(r, n, u, v):
         if u is not None and v is not None:
             rolled["args"] = (n, u, v)
             rolled["result"] = r
-        return r
+    VB2 = _hook_class(realVB2, lambda n, u=None, v=None: (n, u, v), _vb2_post)
 
     D.VectorBasis = VB
     if d.lower() == "side":
@@ -206,7 +206,7 @@ def body(m, cfg):
                 members = dict(data)
                 if m.symbolic:
                     # the first call's own basis is not the subject: continue it with a fixed normal (keeps the path condition small)
-                    D.VectorBasis = lambda n, u=None, v=None: realVB(n=Vector(0.0, 0.0, 1.0), u=u, v=v)
+                    D.VectorBasis = _hook_class(realVB, lambda n, u=None, v=None: (Vector(0.0, 0.0, 1.0), u, v))
                     Vm.VectorBasis = realVB2
                 try:
                     get_direction(d, data=data, dx=dx, dy=dy, origin=origin)
@@ -291,6 +291,24 @@ def body(m, cfg):
                 key=f"angmom-plane:{tag}", timeout_ms=60000)
         parallel(m, tag, V, l, "v parallel to the angular momentum", "angmom")
     _finish()
+
+
+def _hook_class(real, pre, post=None):
+    """A stand-in for the VectorBasis class that IS a class (the code under check may use it in isinstance tests, call
+    methods on its instances, ...): a subclass whose constructor passes its arguments through `pre` and reports to `post`;
+    instances of the real class count as instances of it."""
+    class _Meta(type(real)):
+        def __instancecheck__(cls, inst):
+            return isinstance(inst, real)
+
+    class Hooked(real, metaclass=_Meta):
+        def __init__(self, n, u=None, v=None):
+            n, u, v = pre(n, u, v)
+            real.__init__(self, n=n, u=u, v=v)
+            if post is not None:
+                post(self, n, u, v)
+    Hooked.__name__ = real.__name__
+    return Hooked
 
 
 def _ite(m, c, a, b):
